@@ -268,6 +268,10 @@ fn main() {
         dedupe: !args.iter().any(|a| a == "--no-dedupe"),
     };
     let seed: u64 = arg(&args, "--seed").and_then(|s| s.parse().ok()).unwrap_or(1);
+    // wall-clock budget of this process: exploration stops (and reports itself as not exhaustive) when it is used up
+    let budget: f64 = arg(&args, "--time-budget").and_then(|s| s.parse().ok()).unwrap_or(1.0e9);
+    let t_start = std::time::Instant::now();
+    let mut out_of_time = false;
     let mut exhaustive = true;
     let mut extra = json!({});
     match cmd {
@@ -300,8 +304,9 @@ fn main() {
                         let mut dfs = explore::Dfs::new(bound);
                         let mut n = 0;
                         while let Some(p) = dfs.next_prefix() {
-                            if n >= max_runs {
+                            if n >= max_runs || t_start.elapsed().as_secs_f64() > budget {
                                 exhaustive = false;
+                                out_of_time = t_start.elapsed().as_secs_f64() > budget;
                                 break;
                             }
                             let src = Box::new(explore::Prefix { prefix: p });
@@ -317,6 +322,10 @@ fn main() {
                         for k in 0..max_runs {
                             if k % of != part {
                                 continue;
+                            }
+                            if t_start.elapsed().as_secs_f64() > budget {
+                                out_of_time = true;
+                                break;
                             }
                             let s = seed.wrapping_mul(1_000_003).wrapping_add((si * 7919 + k) as u64);
                             let src = Box::new(explore::Freeze::new(s, bound));
@@ -337,6 +346,10 @@ fn main() {
                         for k in 0..max_runs {
                             if k % of != part {
                                 continue;
+                            }
+                            if t_start.elapsed().as_secs_f64() > budget {
+                                out_of_time = true;
+                                break;
                             }
                             let s = seed.wrapping_mul(1_000_003).wrapping_add((si * 7919 + k) as u64);
                             let res = if mode == "random" {
@@ -429,7 +442,7 @@ fn main() {
     }
     let stats = json!({"runs":sink.runs,"distinct_traces":sink.distinct,"nontrivial":sink.nontrivial.len(),
         "events":sink.events,"outcomes":sink.outcomes,"exhaustive":exhaustive,"max_steps":sink.max_steps,
-        "extra":extra});
+        "out_of_time":out_of_time,"extra":extra});
     println!("{}", stats);
     let _ = Outcome::Done;
     use std::io::Write as _;
